@@ -4,6 +4,11 @@
 // real commands.ExpandQuery on EVERY object × relation plus a few malformed targets.  The proto tree is
 // rendered without sorting anything: the users of a leaf must arrive sorted, children in rewrite order,
 // tuple-to-userset computed usersets in read order.
+//
+// A share of the worlds (`seq …` lines) goes through the in-process SERVER instead, as a request sequence: Expand
+// with contextual tuples, then the same target without them on the same store and on a second store with the same
+// model and tuples.  The later answers must be the trees of the stored tuples alone: contextual tuples belong to
+// their request (the server builds a fresh ExpandQuery per request; Execute rebinds the query's datastore).
 package main
 
 import (
@@ -11,12 +16,16 @@ import (
 	"fmt"
 	"sort"
 	"strings"
+	"sync"
 
 	openfgav1 "github.com/openfga/api/proto/openfga/v1"
 	"google.golang.org/grpc/status"
 
 	"github.com/openfga/openfga/internal/validation"
+	"github.com/openfga/openfga/pkg/server"
 	"github.com/openfga/openfga/pkg/server/commands"
+	"github.com/openfga/openfga/pkg/storage"
+	"github.com/openfga/openfga/pkg/storage/memory"
 	"github.com/openfga/openfga/pkg/typesystem"
 	"github.com/openfga/openfga/verifharness/fga"
 	"github.com/openfga/openfga/verifharness/fgarun"
@@ -50,6 +59,13 @@ func encodeCase(validated bool, m *fga.Model, tuples, ctxT []fga.Tuple, tg []tar
 		sb.WriteString(" " + dash(t.obj) + " " + dash(t.rel))
 	}
 	return sb.String()
+}
+
+// encodeSeq: a request SEQUENCE against the in-process server (one server for the whole run, two fresh stores with
+// the same model and tuples per case); per target: Expand with the contextual tuples on store A, then the same
+// target WITHOUT them on store A, then without them on store B.
+func encodeSeq(m *fga.Model, tuples, ctxT []fga.Tuple, tg []target) string {
+	return "seq" + strings.TrimPrefix(encodeCase(true, m, tuples, ctxT, tg), "exp 1")
 }
 
 // allTargets: every object that occurs anywhere (object side, user side, contextual) and one fresh id
@@ -147,6 +163,15 @@ func crafted() []string {
 			{Name: "editor", Rewrite: this(), Restrs: []fga.Restr{u}},
 		}}}}
 	out = append(out, encodeCase(false, um, []fga.Tuple{{Obj: "doc:1", Rel: "viewer", User: "user:a"}}, nil, []target{{"doc:1", "viewer"}, {"doc:1", "editor"}}))
+	// the same world as a request sequence through the server: contextual tuples must not outlive their request
+	out = append(out, encodeSeq(m, stored, ctxT, allTargets(m, stored, ctxT)))
+	// … and the smallest one: viewer: [user], one stored user, one contextual user
+	sm := &fga.Model{Types: []*fga.TypeDef{{Name: "user"}, {Name: "folder", Rels: []*fga.RelDef{{Name: "viewer", Rewrite: this(), Restrs: []fga.Restr{u}}}},
+		{Name: "doc", Rels: []*fga.RelDef{{Name: "parent", Rewrite: this(), Restrs: []fga.Restr{{Typ: "folder"}}},
+			{Name: "viewer", Rewrite: &fga.Rewrite{Kind: "union", Kids: []*fga.Rewrite{this(), {Kind: "ttu", Tupleset: "parent", Computed: "viewer"}}}, Restrs: []fga.Restr{u}}}}}}
+	sst := []fga.Tuple{{Obj: "doc:1", Rel: "viewer", User: "user:alice"}, {Obj: "doc:1", Rel: "parent", User: "folder:a"}}
+	sct := []fga.Tuple{{Obj: "doc:1", Rel: "viewer", User: "user:mallory"}, {Obj: "doc:1", Rel: "parent", User: "folder:m"}}
+	out = append(out, encodeSeq(sm, sst, sct, allTargets(sm, sst, sct)))
 	return out
 }
 
@@ -249,7 +274,13 @@ func gen(r *hx.Rand, n int, tier string, emit func(string), st *hx.Stats) {
 		if c.Chance(1, 4) {
 			tg = append(tg, target{"nosuch:a", "member"}, target{tg[0].obj, "nosuch"}, target{fga.TypeOf(tg[0].obj) + ":*", tg[0].rel}, target{"", tg[0].rel}, target{tg[0].obj, ""})
 		}
-		emit(encodeCase(true, m, tuples, ctxT, tg))
+		if (ctxKind == "valid" || ctxKind == "valid+dup") && len(ctxT) > 0 && c.Chance(1, 3) {
+			// through the server, as a sequence (well-formed targets only: the transport-level validator is not C30's subject)
+			emit(encodeSeq(m, tuples, ctxT, allTargets(m, tuples, ctxT)))
+			st.Inc("seq")
+		} else {
+			emit(encodeCase(true, m, tuples, ctxT, tg))
+		}
 		i++
 		st.Inc("cases")
 		st.Add("targets", len(tg))
@@ -332,8 +363,90 @@ func errClass(err error) string {
 	return "E other " + strings.ReplaceAll(strings.ReplaceAll(err.Error(), "\n", " "), "\t", " ")
 }
 
+// ---- request sequences through the in-process server ----
+
+var (
+	srvOnce sync.Once
+	srv     *server.Server
+	srvDS   storage.OpenFGADatastore
+)
+
+func theServer() *server.Server {
+	srvOnce.Do(func() {
+		srvDS = memory.New()
+		srv = server.MustNewServerWithOpts(server.WithDatastore(srvDS))
+	})
+	return srv
+}
+
+func newStore(s *server.Server, m *fga.Model, tuples []fga.Tuple) (string, error) {
+	ctx := context.Background()
+	cs, err := s.CreateStore(ctx, &openfgav1.CreateStoreRequest{Name: "c30-seq"})
+	if err != nil {
+		return "", err
+	}
+	am := m.Proto("")
+	if _, err := s.WriteAuthorizationModel(ctx, &openfgav1.WriteAuthorizationModelRequest{StoreId: cs.GetId(),
+		TypeDefinitions: am.GetTypeDefinitions(), SchemaVersion: am.GetSchemaVersion(), Conditions: am.GetConditions()}); err != nil {
+		return "", err
+	}
+	// straight into the datastore, like fgarun.Store: leftovers of other models are part of the worlds
+	for i := 0; i < len(tuples); i += 40 {
+		j := min(i+40, len(tuples))
+		if err := srvDS.Write(ctx, cs.GetId(), nil, fga.Keys(tuples[i:j])); err != nil {
+			return "", err
+		}
+	}
+	return cs.GetId(), nil
+}
+
+func execSeq(t *fga.Toks, st *hx.Stats) string {
+	m := fga.DecodeModel(t)
+	tuples := fga.DecodeTuples(t, "tuples")
+	ctxT := fga.DecodeTuples(t, "ctx")
+	t.Expect("targets")
+	k := t.Int()
+	s := theServer()
+	a, err := newStore(s, m, tuples)
+	if err != nil {
+		return "invalid-model"
+	}
+	b, err := newStore(s, m, tuples)
+	if err != nil {
+		return "invalid-model"
+	}
+	defer func() {
+		for _, id := range []string{a, b} {
+			_, _ = s.DeleteStore(context.Background(), &openfgav1.DeleteStoreRequest{StoreId: id})
+		}
+	}()
+	ct := &openfgav1.ContextualTupleKeys{TupleKeys: fga.Keys(ctxT)}
+	one := func(store string, obj, rel string, ct *openfgav1.ContextualTupleKeys) string {
+		resp, err := s.Expand(context.Background(), &openfgav1.ExpandRequest{StoreId: store,
+			TupleKey: &openfgav1.ExpandRequestTupleKey{Object: obj, Relation: rel}, ContextualTuples: ct})
+		if err != nil {
+			st.Inc("out:error")
+			return errClass(err)
+		}
+		var sb strings.Builder
+		renderNode(resp.GetTree().GetRoot(), &sb)
+		st.Inc("out:tree")
+		return sb.String()
+	}
+	var outs []string
+	for i := 0; i < k; i++ {
+		obj, rel := undash(t.Next()), undash(t.Next())
+		outs = append(outs, one(a, obj, rel, ct)+" ~ "+one(a, obj, rel, nil)+" ~ "+one(b, obj, rel, nil))
+	}
+	return strings.Join(outs, " | ")
+}
+
 func exec(line string, st *hx.Stats) string {
 	t := fga.NewToks(line)
+	if strings.HasPrefix(line, "seq ") {
+		t.Expect("seq")
+		return execSeq(t, st)
+	}
 	t.Expect("exp")
 	validated := t.Int() == 1
 	m := fga.DecodeModel(t)
